@@ -566,7 +566,8 @@ def _op_ivp(ctx, op, state):
     alt = len(op) > 2 and bool(op[2])
     g, c, pts = state["grid"], state["center"], state["pts"]
     spec = [t for t in _dens_spec(ctx, which) if t[0] == "s"]  # IVP solver: spherically symmetric densities
-    if not spec or (ctx.spec["grid"].get("radial") or ["becke"])[0] != "becke":
+    if not spec or (ctx.spec["grid"].get("radial") or ["becke"])[0] != "becke" or ctx.spec["grid"].get("rule") in ("trap", "cc"):
+        # (... and the closed rules resolve the radial integrals the IVP starts from only to ~5e-3 with 60 nodes)
         # (the IVP starts at r = 300-1000: only radial grids that reach that far - the Becke-mapped ones - are used with it)
         ctx.log.add(ctx.step, "ivp", "skip")
         return
